@@ -567,12 +567,210 @@ def rule_update_formulas(repo, rep):
           site(f), '' if okd else 'delta is not a positive constant')
 
 
+def rule_objective_and_distances(repo, rep):
+  R = 'R-FORM:scml-checkpoint-objective'
+  rep.rule(R, 'at a checkpoint the objective is beta * sum(w) + (1 / '
+           'n_triplets) * sum of the positive margins 1 + dist_diff . w over '
+           'all triplets (as an exact rational function of those two sums); '
+           'checkpoints are the iterations with (iter + 1) % output_iter == '
+           '0; active bases are those with w > 0; dist_diff is the squared '
+           'projection of the (anchor, positive) difference minus that of the '
+           '(anchor, negative) difference on every basis element')
+  _f0, f = _fit_view(repo)
+  key = 'scml._BaseSCML._fit:'
+  loops = [n for n in ast.walk(f.node) if isinstance(n, ast.For) and
+           ast.unparse(n.iter) == 'range(self.max_iter)']
+  if len(loops) != 1:
+    rep.unknown(R, key + 'objective', site(f), 'main loop not found')
+    return
+  lp = loops[0]
+  # the checkpoint block: where best_w is assigned
+  asg = [n for n in ast.walk(lp) if isinstance(n, ast.Assign) and
+         any(t_ == 'best_w' for (t_, v_) in astutil.assign_pairs(n))]
+  if not asg:
+    rep.unknown(R, key + 'objective', site(f), 'checkpoint not found')
+    return
+  sched = []
+  for (ifn, ch) in astutil.enclosing(lp, asg[0], ast.If):
+    tun = astutil.unfold(ifn.test, lp.body, ifn if ifn in lp.body else
+                         lp.body[-1], stop=('iter', 'w', 'best_obj'))
+    if 'output_iter' in ast.unparse(tun):
+      pos = ch in ifn.body
+      sched.append(astutil.norm_atom(
+          tun if pos else ast.UnaryOp(op=ast.Not(), operand=tun)))
+  good = ('(iter + 1) % self.output_iter == 0',
+          '0 == (iter + 1) % self.output_iter',
+          'not (iter + 1) % self.output_iter')
+  # `continue`-style schedules leave no enclosing test: look for the guard
+  if not sched:
+    for n in lp.body:
+      if isinstance(n, ast.If) and 'output_iter' in ast.unparse(n.test) and \
+              any(isinstance(x, ast.Continue) for x in n.body):
+        tun = astutil.unfold(n.test, lp.body, n, stop=('iter',))
+        neg = astutil.norm_atom(ast.UnaryOp(op=ast.Not(), operand=tun))
+        sched = [neg]
+  if sched and all(c in good for c in sched):
+    rep.derived(R, key + 'schedule', site(f, asg[0]))
+  elif sched and all(c in ('(iter + 1) % self.output_iter != 0',
+                           'iter % self.output_iter == 0',
+                           '(iter - 1) % self.output_iter == 0',
+                           '(iter + 1) % self.output_iter == 1')
+                     for c in sched):
+    rep.refuted(R, key + 'schedule', site(f, asg[0]), 'checkpoints are taken '
+                'under %s, documented (iter + 1) %% output_iter == 0' % sched)
+  elif sched:
+    rep.unknown(R, key + 'schedule', site(f, asg[0]), 'checkpoint schedule '
+                '%s not in the table' % sched)
+  else:
+    rep.unknown(R, key + 'schedule', site(f, asg[0]), 'checkpoint schedule '
+                'not found')
+  # objective value compared at the checkpoint
+  blk = astutil.parents(f.node).get(asg[0])
+  test = blk.test if isinstance(blk, ast.If) else None
+  objx = None
+  if isinstance(test, ast.Compare):
+    for side in (test.left, test.comparators[0]):
+      if ast.unparse(side) != 'best_obj':
+        objx = side
+  if objx is None:
+    rep.unknown(R, key + 'objective', site(f, asg[0]), 'objective expression '
+                'not found')
+  else:
+    holder = astutil.parents(f.node).get(blk)
+    body = getattr(holder, 'body', lp.body)
+    if blk not in body:
+      body = lp.body
+    un = astutil.unfold(objx, body, blk,
+                        stop=('w', 'dist_diff', 'n_triplets', 'iter'))
+    txt = ast.unparse(un)
+    margins = ('1 + np.matmul(dist_diff, w.T)', '1 + dist_diff.dot(w.T)',
+               'np.matmul(dist_diff, w.T) + 1', '1 + dist_diff @ w.T',
+               'dist_diff.dot(w.T) + 1', 'dist_diff @ w.T + 1')
+    scal = {'self.beta': 'beta', 'n_triplets': 'n', 'dist_diff.shape[0]': 'n',
+            'len(dist_diff)': 'n', 'np.sum(w)': 'S', 'w.sum()': 'S'}
+    for m in margins:
+      scal['np.sum((%s)[%s > 0])' % (m, m)] = 'H'
+      scal['(%s)[%s > 0].sum()' % (m, m)] = 'H'
+      scal['np.sum(np.maximum(%s, 0))' % m] = 'H'
+      scal['np.sum(np.maximum(0, %s))' % m] = 'H'
+      scal['np.maximum(%s, 0).sum()' % m] = 'H'
+    v = eval_expr(un, scal, {})
+    be, n_, S, H = (Rat.sym(x) for x in ('beta', 'n', 'S', 'H'))
+    want = S * be + H / n_
+    if not isinstance(v, Rat):
+      rep.unknown(R, key + 'objective', site(f, asg[0]), 'objective %s is '
+                  'not a rational function of the recognised sums' % txt)
+    elif v == want:
+      rep.derived(R, key + 'objective', site(f, asg[0]),
+                  sample=dict(rule=R, objective=repr(v)))
+    else:
+      rep.refuted(R, key + 'objective', site(f, asg[0]), 'the checkpoint '
+                  'objective is %r, documented %r (S = sum of the weights, '
+                  'H = sum of the positive margins)' % (v, want))
+  # active bases
+  _g0, g = _cbw_view(repo)
+  ad = [n for n in ast.walk(g.node) if isinstance(n, ast.Assign) and
+        'active_idx' in [ast.unparse(x) for x in ast.walk(n.targets[0])
+                         if isinstance(x, ast.Name)]]
+  k2 = 'scml._BaseSCML._components_from_basis_weights:active'
+  if ad:
+    t = ast.unparse(ad[0].value).replace(' ', '')
+    ok = t in ('w>0', 'np.flatnonzero(w[0]>0)', 'np.flatnonzero(w>0)',
+               'np.where(w>0)[1]', 'np.nonzero(w>0)[1]', 'np.where(w[0]>0)[0]')
+    bad = any(x in t for x in ('w>=0', 'w<0', 'w<=0', 'w!=0', 'w>1'))
+    rep.add(R, k2, 'derived' if ok else 'refuted' if bad else 'unknown',
+            site(g, ad[0]), '' if ok else 'active bases are selected by %s, '
+            'documented w > 0' % ast.unparse(ad[0].value))
+  else:
+    rep.unknown(R, k2, site(g), 'selection of the active bases not found')
+  # dist_diff
+  h = astutil.inline_helpers(repo,
+                             repo.get_func('scml._BaseSCML._compute_dist_diff'))
+  rep.analysed(getattr(h, 'orig', h))
+  k3 = 'scml._BaseSCML._compute_dist_diff:'
+  ret = [r for r in h.node.body if isinstance(r, ast.Return)]
+  if not ret:
+    rep.unknown(R, k3 + 'return', site(h), 'no return')
+    return
+  un = astutil.unfold(ret[-1].value, h.node.body, ret[-1],
+                      stop=('dist', 'indices', 'n_triplets'))
+  t = ast.unparse(un).replace(' ', '')
+  names = {}
+  if isinstance(un, ast.BinOp) and isinstance(un.op, (ast.Sub, ast.Add)):
+    import re as _re
+    m1 = _re.match(r'^(\w+)\[(\w+)\[:(.+)\]\]$',
+                   ast.unparse(un.left).replace(' ', ''))
+    m2 = _re.match(r'^(\w+)\[(\w+)\[(.+):\]\]$',
+                   ast.unparse(un.right).replace(' ', ''))
+    if m1 and m2 and m1.groups() == m2.groups():
+      if isinstance(un.op, ast.Sub):
+        rep.derived(R, k3 + 'difference', site(h, ret[-1]))
+      else:
+        rep.refuted(R, k3 + 'difference', site(h, ret[-1]), 'dist_diff is '
+                    'the SUM %s of the positive-pair and negative-pair '
+                    'distances' % ast.unparse(un))
+      names = dict(dist=m1.group(1), indices=m1.group(2), n=m1.group(3))
+    else:
+      rep.unknown(R, k3 + 'difference', site(h, ret[-1]), 'return %s not '
+                  'recognised' % ast.unparse(un))
+  else:
+    rep.unknown(R, k3 + 'difference', site(h, ret[-1]), 'return %s not '
+                'recognised' % ast.unparse(un))
+  if names:
+    dd = [v for (n_, v) in guards.assignments(h.node, names['dist'])
+          if v is not None]
+    dtxt = ast.unparse(dd[0]).replace(' ', '') if dd else ''
+    import re as _re
+    m = _re.match(r'^(?:np\.square\((\w+)\[(\w+)\[:,0\](?:,:)?\]-'
+                  r'\1\[\2\[:,1\](?:,:)?\]\)|'
+                  r'\((\w+)\[(\w+)\[:,0\](?:,:)?\]-\3\[\4\[:,1\](?:,:)?\]\)\*\*2)$',
+                  dtxt)
+    if m:
+      rep.derived(R, k3 + 'squared-projection', site(h))
+      xb = m.group(1) or m.group(3)
+      xd = [v for (n_, v) in guards.assignments(h.node, xb) if v is not None]
+      xt = ast.unparse(xd[0]).replace(' ', '') if xd else ''
+      okx = xt in ('np.matmul(X,basis.T)', 'X.dot(basis.T)', 'X@basis.T')
+      badx = xt in ('np.matmul(X,basis)', 'X.dot(basis)', 'X@basis',
+                    'np.matmul(basis.T,X)', 'basis.T.dot(X)')
+      rep.add(R, k3 + 'projection', 'derived' if okx else 'refuted' if badx
+              else 'unknown', site(h), '' if okx else 'the points are '
+              'projected by %s, documented X basis^T' % xt)
+    elif '+' in dtxt and 'square' in dtxt or '+' in dtxt and '**2' in dtxt:
+      rep.refuted(R, k3 + 'squared-projection', site(h), 'pair distances '
+                  'are %s: the projections of the two points are ADDED'
+                  % dtxt)
+    else:
+      rep.unknown(R, k3 + 'squared-projection', site(h), 'pair distances '
+                  '%s not recognised' % dtxt)
+    # first half of the stacked pairs = (anchor, positive), second half =
+    # (anchor, negative)
+    src = ast.unparse(h.node)
+    stk = [c for c in astutil.calls_in(h.node)
+           if canon(repo.dotted(h.module, c.func) or '') ==
+           canon('numpy.vstack') and c.args and
+           isinstance(c.args[0], (ast.Tuple, ast.List)) and
+           len(c.args[0].elts) == 2]
+    if stk:
+      a, b = [ast.unparse(x).replace(' ', '') for x in stk[0].args[0].elts]
+      okp = (a, b) == ('triplets[:,[0,1]]', 'triplets[:,[0,2]]')
+      badp = (a, b) == ('triplets[:,[0,2]]', 'triplets[:,[0,1]]')
+      rep.add(R, k3 + 'pair-order', 'derived' if okp else 'refuted' if badp
+              else 'unknown', site(h, stk[0]), '' if okp else 'stacked pairs '
+              '%s then %s, documented (anchor, positive) then (anchor, '
+              'negative)' % (a, b))
+    else:
+      rep.unknown(R, k3 + 'pair-order', site(h), 'stacking of the pairs not '
+                  'found')
+
+
 def check(repo, rep, tier):
   rule_weights_nonneg(repo, rep)
   rule_components_form(repo, rep)
   rule_low_rank_condition(repo, rep)
   rule_lda_normalised(repo, rep)
   rule_update_formulas(repo, rep)
+  rule_objective_and_distances(repo, rep)
   # option paths executable (C03(7)) and RNG discipline (C17), SCML only
   before = len(rep.obs)
   fl = len(rep.floors)
